@@ -95,7 +95,9 @@ Section BUILD.
       destruct (parse_primitive parse_int64 parse_int32 parse_float t c) as [[]|]; cbn in H; try discriminate H; inversion H; subst; intros E; discriminate E.
     - destruct v as [|[|x l]|]; try discriminate H.
       destruct (all_some (map (reading it) (x :: l))); cbn in H; [|discriminate H]. inversion H; subst. discriminate.
-    - discriminate H.
+    - destruct v as [| |ms]; try discriminate H.
+      destruct (obj_loop _ decl []); [|discriminate H].
+      destruct (obj_loop _ ms _); cbn in H; [|discriminate H]. inversion H; subst. discriminate.
     - destruct v as [| |ms]; try discriminate H.
       destruct (obj_loop _ decl []); cbn in H; [|discriminate H]. inversion H; subst. discriminate.
   Qed.
@@ -140,13 +142,93 @@ Section BUILD.
       intros j y q Hn Hg. replace (S i + j) with (i + S j) by lia. now apply (Hf (S j) y q).
   Qed.
 
-  (* buildResObj on the parameter tree of a value: the value read at the declared types, for
-     schema trees and values of any depth *)
-  Theorem build_reading : forall s, names_ok s = true -> forall v p root mk key,
-    deep_get root (child_path mk key) = Some (tree_of v) -> reading s v = Some p ->
-    build root s mk key = BOk p.
+  Lemma assoc_wf k ms x : assoc k ms = Some x -> wf_members ms -> wfv x.
   Proof.
-    induction s as [c|it IH|decl IHd|decl a IHd IHa] using dsch_ind'; intros Hn v p root mk key Hg Hr.
+    induction ms as [|[k' y] ms IH]; simpl; [discriminate|]. intros H [Hy Hr].
+    destruct (String.eqb k k'); [now inversion H; subst|auto].
+  Qed.
+  Lemma assoc_nek k ms x : assoc k ms = Some x -> nek_members ms -> nek x.
+  Proof.
+    induction ms as [|[k' y] ms IH]; simpl; [discriminate|]. intros H (_ & Hy & Hr).
+    destruct (String.eqb k k'); [now inversion H; subst|auto].
+  Qed.
+  Lemma nth_wf : forall l j x, nth_error l j = Some x -> wf_all l -> wfv x.
+  Proof. induction l as [|y l IH]; intros [|j] x H Hw; simpl in H; try discriminate; destruct Hw as [Hy Hr]; [now inversion H; subst|eauto]. Qed.
+  Lemma nth_nek : forall l j x, nth_error l j = Some x -> nek_all l -> nek x.
+  Proof. induction l as [|y l IH]; intros [|j] x H Hw; simpl in H; try discriminate; destruct Hw as [Hy Hr]; [now inversion H; subst|eauto]. Qed.
+
+  Definition build_ok (s : dsch) : Prop :=
+    names_ok s = true -> forall v p root mk key, wfv v -> nek v ->
+      deep_get root (child_path mk key) = Some (tree_of v) -> reading s v = Some p ->
+      build root s mk key = BOk p.
+  Definition decl_names : list (string * dsch) -> bool :=
+    fix go (l : list (string * dsch)) : bool :=
+      match l with [] => true | (k, ps) :: r => negb (String.eqb k "") && names_ok ps && go r end.
+
+  (* the loop over the declared properties *)
+  Lemma decl_loop ms root mk key : wf_members ms -> nek_members ms ->
+    deep_get root (child_path mk key) = Some (PNode (obj_kids ms)) ->
+    forall l acc m0, Forall (fun kp => build_ok (snd kp)) l -> decl_names l = true ->
+      obj_loop (fun k ps => match assoc k ms with
+                            | None => BOk PNil
+                            | Some x => match reading ps x with Some p => BOk p | None => BErr end
+                            end) l acc = Some m0 ->
+      obj_loop (fun k ps => build root ps (child_path mk key) k) l acc = Some m0.
+  Proof.
+    intros Hwm Hnm Hg. induction l as [|[k ps] l IHl]; intros acc m0 Hall Hnames Hl; [exact Hl|].
+    inversion Hall as [|? ? Hps Hall']; subst. cbn [obj_loop] in Hl |- *. cbn [decl_names] in Hnames.
+    apply andb_true_iff in Hnames. destruct Hnames as [Hk Hrest]. apply andb_true_iff in Hk. destruct Hk as [Hk Hps'].
+    apply negb_true_iff in Hk. apply String.eqb_neq in Hk.
+    assert (Hpath : deep_get root (child_path (child_path mk key) k) = option_map tree_of (assoc k ms)).
+    { rewrite child_path_nonempty by exact Hk. rewrite (deep_get_snoc _ _ _ _ Hg). apply assoc_obj_kids. }
+    destruct (assoc k ms) as [x|] eqn:Ex.
+    - destruct (reading ps x) as [q|] eqn:Eq; [|discriminate].
+      simpl in Hps. rewrite (Hps Hps' x q root (child_path mk key) k (assoc_wf _ _ _ Ex Hwm) (assoc_nek _ _ _ Ex Hnm) Hpath Eq).
+      pose proof (reading_not_nil _ _ _ Eq) as Hnn.
+      destruct q; try congruence; now apply IHl.
+    - rewrite build_absent by exact Hpath. now apply IHl.
+  Qed.
+
+  Lemma assoc_in_nodup {A} : forall (l : list (string * A)) k x, NoDup (map fst l) -> In (k, x) l -> assoc k l = Some x.
+  Proof.
+    induction l as [|[k' y] l IH]; intros k x Hnd Hin; [destruct Hin|]. simpl. inversion Hnd as [|? ? Hni Hnd']; subst.
+    destruct Hin as [E|Hin].
+    - inversion E; subst. now rewrite String.eqb_refl.
+    - destruct (String.eqb_spec k k') as [->|_]; [|now apply IH].
+      exfalso. apply Hni. apply (in_map fst) in Hin. exact Hin.
+  Qed.
+
+  (* the loop over the members of the parameter tree, for additionalProperties *)
+  Lemma ap_loop (decl : list (string * dsch)) a ms root mk key : build_ok a -> names_ok a = true ->
+    NoDup (map fst ms) -> wf_members ms -> nek_members ms ->
+    deep_get root (child_path mk key) = Some (PNode (obj_kids ms)) ->
+    forall l acc m0, (forall k x, In (k, x) l -> In (k, x) ms) ->
+      obj_loop (fun k x => if has_key k decl then BOk PNil
+                           else match reading a x with Some p => BOk p | None => BErr end) l acc = Some m0 ->
+      obj_loop (fun k (_ : ptree) => if has_key k decl then BOk PNil else build root a (child_path mk key) k) (obj_kids l) acc = Some m0.
+  Proof.
+    intros Ha Hna Hnd Hwm Hnm Hg. induction l as [|[k x] l IHl]; intros acc m0 Hsub Hl; [exact Hl|].
+    cbn [obj_loop obj_kids] in Hl |- *.
+    assert (Hrest : forall k0 x0, In (k0, x0) l -> In (k0, x0) ms) by (intros; apply Hsub; now right).
+    destruct (has_key k decl); [now apply IHl|].
+    assert (Hin : In (k, x) ms) by (apply Hsub; now left).
+    pose proof (assoc_in_nodup ms k x Hnd Hin) as Ex.
+    assert (Hk : k <> ""%string).
+    { clear - Hin Hnm. induction ms as [|[k' y] ms IH]; [destruct Hin|]. destruct Hnm as (Hk' & _ & Hr).
+      destruct Hin as [E|Hin]; [now inversion E; subst|auto]. }
+    assert (Hpath : deep_get root (child_path (child_path mk key) k) = Some (tree_of x)).
+    { rewrite child_path_nonempty by exact Hk. rewrite (deep_get_snoc _ _ _ _ Hg). rewrite assoc_obj_kids, Ex. reflexivity. }
+    destruct (reading a x) as [q|] eqn:Eq; [|discriminate].
+    rewrite (Ha Hna x q root (child_path mk key) k (assoc_wf _ _ _ Ex Hwm) (assoc_nek _ _ _ Ex Hnm) Hpath Eq).
+    pose proof (reading_not_nil _ _ _ Eq) as Hnn.
+    destruct q; try congruence; now apply IHl.
+  Qed.
+
+  (* buildResObj on the parameter tree of a value: the value read at the declared types, for
+     schema trees and values of any depth, additionalProperties included *)
+  Theorem build_reading : forall s, build_ok s.
+  Proof.
+    induction s as [c|it IH|decl IHd|decl a IHd IHa] using dsch_ind'; intros Hn v p root mk key Hw Hk Hg Hr.
     - (* primitive *)
       simpl in Hr. destruct v as [t| |]; try discriminate. cbn [DeepObject.build]. rewrite Hg. simpl.
       destruct (parse_primitive parse_int64 parse_int32 parse_float t c) as [[]|]; try discriminate; now inversion Hr.
@@ -154,39 +236,27 @@ Section BUILD.
       cbn [DeepSpec.reading] in Hr. destruct v as [|[|x l]|]; try discriminate.
       destruct (all_some (map (reading it) (x :: l))) as [ps|] eqn:Ea; cbn in Hr; [|discriminate Hr]. inversion Hr; subst p.
       rewrite tree_of_arr in Hg. cbn [DeepObject.build]. rewrite Hg. rewrite slice_len_arr.
+      rewrite wfv_arr in Hw. destruct Hw as [_ Hw]. rewrite nek_arr in Hk.
       rewrite (collect_all_some _ (reading it) (x :: l) 0 ps); [reflexivity| |exact Ea].
       intros j y q Hnth Hq. simpl (0 + j).
-      apply (IH Hn y q); [|exact Hq].
+      apply (IH Hn y q); [exact (nth_wf _ _ _ Hnth Hw)|exact (nth_nek _ _ _ Hnth Hk)| |exact Hq].
       rewrite child_path_nonempty by apply itoa_nonempty.
       rewrite (deep_get_snoc _ _ _ _ Hg). change j with (0 + j). rewrite assoc_arr_kids. now rewrite Hnth.
     - (* object with declared properties only *)
       cbn [DeepSpec.reading] in Hr. destruct v as [| |ms]; try discriminate.
       destruct (obj_loop _ decl []) as [m|] eqn:El; cbn in Hr; [|discriminate Hr]. inversion Hr; subst p.
       rewrite tree_of_obj in Hg. cbn [DeepObject.build]. rewrite Hg.
-      assert (Hloop : forall l acc m0, Forall (fun kp => names_ok (snd kp) = true -> forall v p root mk key,
-                                 deep_get root (child_path mk key) = Some (tree_of v) -> reading (snd kp) v = Some p ->
-                                 build root (snd kp) mk key = BOk p) l ->
-                 (fix go (l : list (string * dsch)) : bool :=
-                    match l with [] => true | (k, ps) :: r => negb (String.eqb k "") && names_ok ps && go r end) l = true ->
-                 obj_loop (fun k ps => match assoc k ms with
-                                       | None => BOk PNil
-                                       | Some x => match reading ps x with Some p => BOk p | None => BErr end
-                                       end) l acc = Some m0 ->
-                 obj_loop (fun k ps => build root ps (child_path mk key) k) l acc = Some m0).
-      { induction l as [|[k ps] l IHl]; intros acc m0 Hall Hnames Hl; [exact Hl|].
-        inversion Hall as [|? ? Hps Hall']; subst. cbn [obj_loop] in Hl |- *.
-        apply andb_true_iff in Hnames. destruct Hnames as [Hk Hrest]. apply andb_true_iff in Hk. destruct Hk as [Hk Hps'].
-        apply negb_true_iff in Hk. apply String.eqb_neq in Hk.
-        assert (Hpath : deep_get root (child_path (child_path mk key) k) = option_map tree_of (assoc k ms)).
-        { rewrite child_path_nonempty by exact Hk. rewrite (deep_get_snoc _ _ _ _ Hg). apply assoc_obj_kids. }
-        destruct (assoc k ms) as [x|] eqn:Ex.
-        - destruct (reading ps x) as [q|] eqn:Eq; [|discriminate].
-          simpl in Hps. rewrite (Hps Hps' x q root (child_path mk key) k Hpath Eq).
-          pose proof (reading_not_nil _ _ _ Eq) as Hnn.
-          destruct q; try congruence; now apply IHl.
-        - rewrite build_absent by exact Hpath. now apply IHl. }
+      rewrite wfv_obj in Hw. destruct Hw as (_ & Hnd & Hw). rewrite nek_obj in Hk.
       simpl in Hn. rewrite andb_true_r in Hn.
-      rewrite (Hloop decl [] m IHd Hn El). reflexivity.
-    - simpl in Hr. discriminate.
+      rewrite (decl_loop ms root mk key Hw Hk Hg decl [] m IHd Hn El). reflexivity.
+    - (* object with additionalProperties *)
+      cbn [DeepSpec.reading] in Hr. destruct v as [| |ms]; try discriminate.
+      destruct (obj_loop _ decl []) as [m|] eqn:El; [|discriminate Hr].
+      destruct (obj_loop _ ms m) as [m'|] eqn:El2; cbn in Hr; [|discriminate Hr]. inversion Hr; subst p.
+      rewrite tree_of_obj in Hg. cbn [DeepObject.build]. rewrite Hg.
+      rewrite wfv_obj in Hw. destruct Hw as (_ & Hnd & Hw). rewrite nek_obj in Hk.
+      simpl in Hn. apply andb_true_iff in Hn. destruct Hn as [Hn Hna].
+      rewrite (decl_loop ms root mk key Hw Hk Hg decl [] m IHd Hn El).
+      rewrite (ap_loop decl a ms root mk key IHa Hna Hnd Hw Hk Hg ms m m' (fun _ _ H => H) El2). reflexivity.
   Qed.
 End BUILD.
